@@ -645,9 +645,12 @@ fn units(which: Which, tier: Tier, t: &Tables) -> Vec<Unit> {
         if ty == Ty::Point {
             // record numbers that need a third byte (and, thorough, 2^17 and 2^18)
             u.push(Unit { ty, kind: UnitKind::Counts { lo: 65535, hi: 65538 } });
+            // one long history: whatever a writer does every N records (N up to the length) shows in the file it leaves
+            u.push(Unit { ty, kind: UnitKind::Counts { lo: 300_001, hi: 300_002 } });
             if tier == Tier::Thorough {
                 u.push(Unit { ty, kind: UnitKind::Counts { lo: 131071, hi: 131074 } });
                 u.push(Unit { ty, kind: UnitKind::Counts { lo: 262143, hi: 262146 } });
+                u.push(Unit { ty, kind: UnitKind::Counts { lo: 1_048_577, hi: 1_048_578 } });
             }
         }
         if matches!(ty, Ty::Multipoint | Ty::PolylineM | Ty::PolygonZ | Ty::Multipatch) {
@@ -1058,7 +1061,7 @@ pub fn check(which: Which, tier: Tier) -> i32 {
                 "d2_scope": "single-shape files over the reduced structure set (thorough only)",
                 "every_part_length_up_to": tier.pick(4200, 9000),
                 "every_record_count_up_to": tier.pick(1600, 3100),
-                "record_counts_beyond": tier.pick("65535..=65537", "65535..=65537, 131071..=131073, 262143..=262145"),
+                "record_counts_beyond": tier.pick("65535..=65537, 300001", "65535..=65537, 131071..=131073, 262143..=262145, 300001, 1048577"),
                 "fault_history_bound": tier.pick(3, 4),
                 "routes": ["mem generic/concrete x iter shx/noshx", "mem generic/concrete read_nth", "disk from_path read_shapes/read_shapes_as/read_nth (d=0 sequences, C01)"],
             }),
